@@ -9,6 +9,10 @@ import (
 	"sort"
 	"strings"
 	"testing"
+	"time"
+
+	"github.com/basecamp/kamal-proxy/internal/verif/vsched"
+	"github.com/basecamp/kamal-proxy/internal/verif/vsync"
 )
 
 func init() { checks["C06"] = checkC06 }
@@ -194,5 +198,125 @@ func checkC06(t *testing.T, job *Job, res *Result) {
 	res.Rule = "from every configuration reached by histories of building commands (deploys incl. TLS/multi-host/strip variants, rollout deploy/set/stop, pause, stop, resume, remove, restart) up to the depth bound, every failing command of classes (1)-(8) of DESIGN.md C06; oracle: predicted error class; probe matrix (hosts x paths x cookie x scheme), list and canonical state file identical before and after; no probe to a target named only in the failed command during a 3-interval settle window, every live target still probed"
 	spec := c06Spec(tier)
 	res.Bounds = fmt.Sprintf("histories of up to %d building commands followed by one failing command", spec.Depth-1)
-	exploreH(t, job, res, spec)
+	if job.Replay == nil || job.Replay.Engine == "H" {
+		exploreH(t, job, res, spec)
+	}
+	if job.Replay == nil || job.Replay.Engine == "S" {
+		var scs []*Scenario
+		for _, c := range c06Configs() {
+			scs = append(scs, c06Scenario(c))
+		}
+		b := Bounds{D: 1, S: 0}
+		if tier == "thorough" {
+			b = Bounds{D: 2, S: 0}
+		}
+		runS(t, job, res, "C06", scs, b, 3000)
+	}
+	res.Engine = "H+S"
+	res.Rule += "; engine S part: a command that fails only after the deploy timeout (rollout deploy / deploy with an unhealthy target) with another command (rollout stop, pause, resume, stop, deploy of the same or another service, a failing command) served 1s into it, every schedule within the bound: afterwards neither the state file nor the live configuration names a rejected target, the file restores to the configuration in force, rejected targets are not probed, and a split is accepted exactly if rollout targets existed before"
+}
+
+// ---- engine S part: another command is served while a doomed command is still running
+
+type c06cfg struct {
+	failing string // op string (fails by not becoming healthy: takes the whole deploy timeout)
+	other   string // op string issued 1s into it
+	pre     []string
+}
+
+func c06Scenario(c c06cfg) *Scenario {
+	sc := &Scenario{Name: fmt.Sprintf("C06-S pre=%v failing=%q other=%q", c.pre, c.failing, c.other), Horizon: 90 * time.Second}
+	var fileAfter, liveAfter, restoredAfter string
+	var rejected []string
+	var rsetErr string
+	var hadRollout bool
+	var probedLate map[string]int
+	sc.Run = func(w *World) {
+		h := &HWorld{World: w, M: newModel(), allNames: map[string]bool{}}
+		for _, p := range c.pre {
+			h.apply(parseOp(p))
+		}
+		time.Sleep(100 * time.Millisecond)
+		hadRollout = h.M.Services["s1"] != nil && len(h.M.Services["s1"].Rollout) > 0
+		fop := parseOp(c.failing)
+		fh := &HWorld{World: w, M: h.M.clone(), allNames: map[string]bool{}, opNo: 50}
+		oh := &HWorld{World: w, M: h.M.clone(), allNames: map[string]bool{}, opNo: 70}
+		rejected = fh.targetNames(fop)
+		var wg vsync.WaitGroup
+		w.S.SetWindow(true)
+		wg.Add(2)
+		vsched.GoTagged("cmd", func() {
+			defer wg.Done()
+			fh.apply(fop)
+		})
+		vsched.GoTagged("cmd", func() {
+			defer wg.Done()
+			time.Sleep(time.Second)
+			oh.apply(parseOp(c.other))
+		})
+		wg.Wait()
+		w.S.SetWindow(false)
+		from := w.Net.Mark("settle-start", "")
+		time.Sleep(3*vI + 50*time.Millisecond)
+		probedLate = map[string]int{}
+		for _, e := range w.Net.Events() {
+			if e.Seq > from && (e.Kind == "probe" || e.Kind == "probe-refused") {
+				probedLate[e.Target]++
+			}
+		}
+		fileAfter = canonicalState(w.State)
+		liveAfter = routerSummary(w.Router)
+		fb, ferr := os.ReadFile(w.State)
+		restoredAfter, _ = restoredSummary(w, fb, ferr == nil)
+		r := w.RolloutSet("s1", 100, nil)
+		rsetErr = classifyErr(r.Err)
+	}
+	sc.Check = func(w *World) []Violation {
+		var vs []Violation
+		for _, t := range rejected {
+			if strings.Contains(fileAfter, `"`+t+`"`) {
+				vs = append(vs, Violation{"C06", "saved-state-names-rejected-target", fmt.Sprintf("after the failed %q the state file mentions %s: %s", c.failing, t, firstN([]byte(fileAfter), 400))})
+			}
+			if strings.Contains(liveAfter, t) {
+				vs = append(vs, Violation{"C06", "live-configuration-names-rejected-target", fmt.Sprintf("after the failed %q the router still uses %s: %s", c.failing, t, liveAfter)})
+			}
+			if probedLate[t] > 0 {
+				vs = append(vs, Violation{"C06", "probes-to-rejected-by-failed-command-target", fmt.Sprintf("%s probed %d times after both commands returned", t, probedLate[t])})
+			}
+		}
+		if restoredAfter != liveAfter {
+			vs = append(vs, Violation{"C06", "saved-state-differs-from-configuration-after-failed-command", fmt.Sprintf("file restores to {%s}, in force {%s}", restoredAfter, liveAfter)})
+		}
+		// a split can be set afterwards exactly if rollout targets existed before (the other commands used here do not add any)
+		wantErr := "rollout-not-set"
+		if hadRollout {
+			wantErr = "ok"
+		}
+		if strings.HasPrefix(c.other, "remove s1") {
+			wantErr = "not-found"
+		}
+		if rsetErr != wantErr {
+			vs = append(vs, Violation{"C06", fmt.Sprintf("rollout-set-after-failed-command got=%s want=%s", rsetErr, wantErr), fmt.Sprintf("pre=%v failing=%q other=%q", c.pre, c.failing, c.other)})
+		}
+		return vs
+	}
+	return sc
+}
+
+func c06Configs() []c06cfg {
+	var cfgs []c06cfg
+	pres := [][]string{
+		{"deploy s1 h=a.example.com p=/"},
+		{"deploy s1 h=a.example.com p=/", "rdeploy s1 n=1", "rset s1 pct=0 allow=v"},
+	}
+	fails := []string{"rdeploy s1 n=1 bad=unhealthy-all", "rdeploy s1 n=2 bad=unhealthy-one", "deploy s1 h=a.example.com p=/ n=2 bad=unhealthy-one", "deploy s3 h=c.example.com p=/ bad=unhealthy-all"}
+	others := []string{"rstop s1", "pause s1 max=20000", "resume s1", "deploy s2 h=b.example.com p=/", "deploy s1 h=a.example.com p=/ n=2", "pause nosuch max=1000", "stop s1 msg=m1"}
+	for _, pre := range pres {
+		for _, f := range fails {
+			for _, o := range others {
+				cfgs = append(cfgs, c06cfg{f, o, pre})
+			}
+		}
+	}
+	return cfgs
 }
